@@ -25,7 +25,7 @@
 #ifndef PHQ_UNIT_HPP
 #define PHQ_UNIT_HPP
 
-#include <functional>
+#include <cstddef>
 #include <type_traits>
 #include <vector>
 
@@ -104,21 +104,91 @@ public:
   }
 };
 
-/// \brief Abstract map of functions for converting a sequence of values expressed in the standard
+/// \brief Entry of a table of conversion functions: a unit of measure and the function that converts
+/// a sequence of values to or from that unit of measure. Internal implementation detail not
+/// intended to be used outside of the PhQ::ConvertInPlace and PhQ::Convert functions.
+template <typename Unit, typename NumericType>
+struct ConversionTableEntry {
+  /// \brief Unit of measure.
+  Unit first;
+
+  /// \brief Function that converts a sequence of values to or from this unit of measure.
+  void (*second)(NumericType* values, const std::size_t size);
+};
+
+/// \brief Table of conversion functions, one per unit of measure of a given type. Offers the lookup
+/// interface of a map, but is a literal type: a conversion table is constant-initialized, so it
+/// exists before any dynamic initialization takes place and physical quantities with static
+/// storage duration can be constructed from, and expressed in, any unit of measure. Internal
+/// implementation detail not intended to be used outside of the PhQ::ConvertInPlace and
+/// PhQ::Convert functions.
+template <typename Unit, typename NumericType, std::size_t Size>
+class ConversionTable {
+public:
+  /// \brief Constructor. Constructs a table of conversion functions from an array of entries.
+  explicit constexpr ConversionTable(const ConversionTableEntry<Unit, NumericType> (&entries)[Size])
+    : entries_{} {
+    for (std::size_t index = 0; index < Size; ++index) {
+      entries_[index] = entries[index];
+    }
+  }
+
+  /// \brief Returns a pointer to the entry of a given unit of measure, or end() if there is none.
+  [[nodiscard]] constexpr const ConversionTableEntry<Unit, NumericType>* find(
+      const Unit unit) const noexcept {
+    for (std::size_t index = 0; index < Size; ++index) {
+      if (entries_[index].first == unit) {
+        return entries_ + index;
+      }
+    }
+    return end();
+  }
+
+  /// \brief Returns the number of entries of a given unit of measure: one or zero.
+  [[nodiscard]] constexpr std::size_t count(const Unit unit) const noexcept {
+    return find(unit) != end() ? 1 : 0;
+  }
+
+  /// \brief Returns a pointer to the first entry.
+  [[nodiscard]] constexpr const ConversionTableEntry<Unit, NumericType>* begin() const noexcept {
+    return entries_;
+  }
+
+  /// \brief Returns a pointer past the last entry.
+  [[nodiscard]] constexpr const ConversionTableEntry<Unit, NumericType>* end() const noexcept {
+    return entries_ + Size;
+  }
+
+  /// \brief Returns the number of entries.
+  [[nodiscard]] constexpr std::size_t size() const noexcept {
+    return Size;
+  }
+
+private:
+  /// \brief Entries of this table.
+  ConversionTableEntry<Unit, NumericType> entries_[Size];
+};
+
+/// \brief Makes a table of conversion functions from a list of entries.
+template <typename Unit, typename NumericType, std::size_t Size>
+[[nodiscard]] constexpr ConversionTable<Unit, NumericType, Size> MakeConversionTable(
+    const ConversionTableEntry<Unit, NumericType> (&entries)[Size]) {
+  return ConversionTable<Unit, NumericType, Size>{entries};
+}
+
+/// \brief Abstract table of functions for converting a sequence of values expressed in the standard
 /// unit of measure of a given type to any given unit of measure of that type. Internal
 /// implementation detail not intended to be used outside of the PhQ::ConvertInPlace, PhQ::Convert,
 /// and PhQ::ConvertStatically functions.
 template <typename Unit, typename NumericType>
-inline const std::map<Unit, std::function<void(NumericType* values, const std::size_t size)>>
-    MapOfConversionsFromStandard;
+inline constexpr std::nullptr_t MapOfConversionsFromStandard{nullptr};
 
-/// \brief Abstract map of functions for converting a sequence of values expressed in any given unit
-/// of measure of a given type to the standard unit of measure of that type. Internal implementation
-/// detail not intended to be used outside of the PhQ::ConvertInPlace, PhQ::Convert, and
-/// PhQ::ConvertStatically functions.
+/// \brief Abstract table of functions for converting a sequence of values expressed in any given
+/// unit of measure of a given type to the standard unit of measure of that type. Internal
+/// implementation detail not intended to be used outside of the PhQ::ConvertInPlace, PhQ::Convert,
+/// and PhQ::ConvertStatically functions.
 template <typename Unit, typename NumericType>
-inline const std::map<Unit, std::function<void(NumericType* values, const std::size_t size)>>
-    MapOfConversionsToStandard;
+inline constexpr std::nullptr_t MapOfConversionsToStandard{nullptr};
 
 }  // namespace Internal
 
